@@ -448,8 +448,8 @@ def main(tier):
 
     t0 = time.time()
     master = rng.master_seed()
-    pool_size = 320 if tier == "quick" else 6000
-    n_hist = 48 if tier == "quick" else 1500
+    pool_size = 260 if tier == "quick" else 6000
+    n_hist = 42 if tier == "quick" else 1500
     mx = os.environ.get("VERIF_MAX_RUNS")
     if mx:
         n_hist = min(n_hist, int(mx))
@@ -469,7 +469,7 @@ def main(tier):
             for k in range(zno, len(pool), nz):
                 table[k] = z.ref(pool[k]["d"], pool[k]["ctx"], uuid_seed=rr.randrange(1 << 30), noise=rr.randrange(1 << 16))
                 ref_stats["references"] += 1
-                if rng.derive(master, "spawncheck", k) % 100 < (3 if tier == "quick" else 2):
+                if rng.derive(master, "spawncheck", k) % 100 < 2:
                     fr = zygote.fresh_reference(pool[k]["d"], pool[k]["ctx"], uuid_seed=5, noise=77)
                     ref_stats["fresh_interpreter_crosschecks"] += 1
                     if not outcome.same(table[k], fr, exact=_exact(pool[k]["d"])):
